@@ -312,7 +312,9 @@ Next ==
   \/ Poll \/ DropDrain \/ DropClose \/ DropFree \/ DropChan \/ End
 
 Spec == Init /\ [][Next]_vars
-FairSpec == Spec /\ WF_vars(Poll) /\ \A o \in Ops : WF_vars(KFinal(o)) /\ WF_vars(PoolRun(o))
+\* fairness: the runtime keeps polling, pool threads run, and the kernel honours a submitted AsyncCancel
+KCancelFinal(o) == o \in kcancel /\ KFinal(o)
+FairSpec == Spec /\ WF_vars(Poll) /\ \A o \in Ops : WF_vars(KCancelFinal(o)) /\ WF_vars(PoolRun(o))
 
 \* ---- properties --------------------------------------------------------------------------
 Safe == NoViol(mon)
@@ -320,9 +322,11 @@ Safe == NoViol(mon)
 InFlightIsLeaked == \A o \in inflight : rc[o] >= 1
 TypeOK == /\ Len(sq) <= SQCAP /\ \A o \in Ops : rc[o] \in 0..3
 
-\* C05 (design level): a cancelled interruptible ring operation is eventually completed.
-\* The dropped AsyncCancel is the recorded deviation: the property is stated for requests
-\* that were not dropped.
-CancelHonoured == \A o \in Ops :
-   (drv = "live" /\ o \in SqCancels) ~> (o \notin kern \/ drv # "live")
+\* C05 (design level): a cancelled interruptible ring operation eventually leaves the kernel
+CancelPrompt == \A o \in Ops :
+   (drv = "live" /\ cflag[o] /\ Kind[o] # "blocking" /\ (o \in kern \/ o \in SqOps))
+      ~> (drv # "live" \/ (o \notin kern /\ o \notin SqOps))
+\* C02 (design level): a final completion sitting in the CQ is eventually delivered
+HasFinal(o) == \E i \in 1..Len(cq) : cq[i].o = o /\ ~cq[i].more
+Delivered == \A o \in Ops : (drv = "live" /\ HasFinal(o)) ~> (hasres[o] \/ rc[o] = 0 \/ drv # "live")
 =============================================================================
